@@ -34,6 +34,15 @@ def step (st : St) (ws : List String) : St × String :=
     match cap.toNat?, writers.toNat?, n.toNat? with
     | some c, some w, some n => (st, s!"stress len={min c (w * n)}")
     | _, _, _ => (st, "bad-op")
+  | ["zst", cap, n, reads] =>
+    -- zero-sized events: M-SINK with every value 0 — n/2 writes, `reads` reads, the remaining writes, then what is left
+    match cap.toNat?, n.toNat?, reads.toNat? with
+    | some c, some n, some reads =>
+      let b0 := (Buf.new c true).run ((List.replicate (n / 2) (Op.write 0)))
+      let got := min reads b0.items.length
+      let b1 := (b0.run (List.replicate reads Op.next)).run (List.replicate (n - n / 2) (Op.write 0))
+      (st, s!"zst got={got} left={b1.items.length}")
+    | _, _, _ => (st, "bad-op")
   | ["case", "slot", o] =>
     match o.toNat? with
     | some o => (.slot (Slot.new (o != 0)), "ok")
